@@ -75,6 +75,10 @@ func emitNodeAssemblerMethodAssignNode_mapoid(w io.Writer, adjCfg *AdjunctCfg, d
 			if v.Kind() != datamodel.Kind_Map {
 				return datamodel.ErrWrongKind{TypeName: "{{ .PkgName }}.{{ .Type.Name }}{{ if .IsRepr }}.Repr{{end}}", MethodName: "AssignNode", AppropriateKind: datamodel.KindSet_JustMap, ActualKind: v.Kind()}
 			}
+			// Begin as any other caller would: that is what sets up the memory the entries are assembled into.
+			if _, err := na.BeginMap(v.Length()); err != nil {
+				return err
+			}
 			itr := v.MapIterator()
 			for !itr.Done() {
 				k, v, err := itr.Next()
